@@ -175,7 +175,7 @@ def run(ctx):
     from vf.draw import draw_stratified
     from vf.runner import case_hash, load_regress
     cases = load_regress(ctx.prop, name) + gen_cfg.alternate_histories(
-        draw_stratified(strata(), 16 if ctx.quick else 250, ctx.seed, wrap=with_clients),
+        draw_stratified(strata(), 32 if ctx.quick else 250, ctx.seed, wrap=with_clients),
         ('semantics', 'edited'))
     done = {}
 
